@@ -160,28 +160,34 @@ Proof.
   destruct (boundary_match ctype) as [b|].
   - destruct (utf8_encode b) as [B|]; [|intros [= <-]; discriminate].
     destruct (contains_char N.eqb CR B); [intros [= <-]; apply raise_not_ok|].
-    destruct (read_parts cfg fr s); intros [= <-]; (apply raise_not_ok || discriminate).
-  - destruct (read_parts cfg fr s); intros [= <-]; (apply raise_not_ok || discriminate).
+    destruct (content_length fr) as [cl|]; [|intros [= <-]; discriminate].
+    destruct (read_parts cfg cl (fr_te fr) s); intros [= <-]; (apply raise_not_ok || discriminate).
+  - destruct (content_length fr) as [cl|]; [|intros [= <-]; discriminate].
+    destruct (read_parts cfg cl (fr_te fr) s); intros [= <-]; (apply raise_not_ok || discriminate).
 Qed.
 
 Lemma body_stage_inl body m :
   body_stage cfg ctype fr s = inl (body, Some m) ->
-  exists b B parts, boundary_match ctype = Some b /\ utf8_encode b = Some B /\
-                    read_parts cfg fr s = RDone parts /\ body = concat parts /\ m = markup_chunks B parts.
+  exists b B cl parts, boundary_match ctype = Some b /\ utf8_encode b = Some B /\
+                    contains_char N.eqb CR B = false /\ content_length fr = Some cl /\
+                    read_parts cfg cl (fr_te fr) s = RDone parts /\ body = concat parts /\ m = markup_chunks B parts.
 Proof.
   unfold body_stage.
   destruct (boundary_match ctype) as [b|] eqn:Eb.
   - destruct (utf8_encode b) as [B|] eqn:EB; [|discriminate].
-    destruct (contains_char N.eqb CR B); [discriminate|].
-    destruct (read_parts cfg fr s) as [parts| | |] eqn:E; try discriminate.
-    intros [= <- <-]. exists b, B, parts. repeat split; assumption || reflexivity.
-  - destruct (read_parts cfg fr s); discriminate.
+    destruct (contains_char N.eqb CR B) eqn:ECR; [discriminate|].
+    destruct (content_length fr) as [cl|] eqn:Ecl; [|discriminate].
+    destruct (read_parts cfg cl (fr_te fr) s) as [parts| | |] eqn:E; try discriminate.
+    intros [= <- <-]. exists b, B, cl, parts. repeat split; assumption || reflexivity.
+  - destruct (content_length fr) as [cl|]; [|discriminate].
+    destruct (read_parts cfg cl (fr_te fr) s); discriminate.
 Qed.
 
 Lemma get_body_string_inr o v : get_body_string cfg ctype fr s = inr o -> o <> Ok v.
 Proof.
   unfold get_body_string. destruct (body_stage cfg ctype fr s) as [[body m]|o'] eqn:E.
-  - destruct (_ <? _); [intros [= <-]; apply raise_not_ok|].
+  - destruct (content_length fr) as [cl|]; [|intros [= <-]; discriminate].
+    destruct (_ <? _); [intros [= <-]; apply raise_not_ok|].
     destruct (_ <? _); [intros [= <-]; apply raise_not_ok | discriminate].
   - intros [= <-]. now apply (body_stage_inr o').
 Qed.
@@ -196,14 +202,16 @@ Qed.
 
 Theorem delivered_fields_complete a d :
   process jk cfg ctype fr s a = Ok (VMultipart d) ->
-  exists b B parts,
-    boundary_match ctype = Some b /\ utf8_encode b = Some B /\ read_parts cfg fr s = RDone parts /\
+  exists b B cl parts,
+    boundary_match ctype = Some b /\ utf8_encode b = Some B /\ contains_char N.eqb CR B = false /\
+    content_length fr = Some cl /\ read_parts cfg cl (fr_te fr) s = RDone parts /\
     forall it, In it (all_items d) ->
                delivered_ok (concat parts) (fst (markup_chunks B parts)) it.
 Proof.
   assert (Post : post_prop jk cfg ctype fr s = Ok (VMultipart d) ->
-                 exists b B parts,
-                   boundary_match ctype = Some b /\ utf8_encode b = Some B /\ read_parts cfg fr s = RDone parts /\
+                 exists b B cl parts,
+                   boundary_match ctype = Some b /\ utf8_encode b = Some B /\ contains_char N.eqb CR B = false /\
+                   content_length fr = Some cl /\ read_parts cfg cl (fr_te fr) s = RDone parts /\
                    forall it, In it (all_items d) -> delivered_ok (concat parts) (fst (markup_chunks B parts)) it).
   { unfold post_prop. destruct (negb _).
     - destruct (prefixb s_app_json _).
@@ -218,8 +226,8 @@ Proof.
         destruct (iter_items body (fst m) (Z.of_nat (c_memfile cfg))) as [fs|[| |]|] eqn:Ei;
           try discriminate; try (intros H; now apply raise_not_ok in H).
         intros [= <-].
-        destruct (body_stage_inl body m E) as (b & B & parts & Hb & HB & Hr & -> & ->).
-        exists b, B, parts. repeat split; try assumption.
+        destruct (body_stage_inl body m E) as (b & B & cl & parts & Hb & HB & HCR & Hcl & Hr & -> & ->).
+        exists b, B, cl, parts. repeat split; try assumption.
         intros it Hit. unfold collect_fields in Hit.
         destruct (collect_items fs _ it Hit) as [H0|(f & Hf & ->)].
         * unfold all_items in H0. cbn in H0. tauto.
